@@ -1212,6 +1212,11 @@ func (q *Query) GetRoutingKey() ([]byte, error) {
 }
 
 func (q *Query) shouldPrepare() bool {
+	if len(q.values) > 0 || q.binding != nil {
+		// bound values can only be marshalled against the types a PREPARE returns; a
+		// statement sent unprepared would go out without them
+		return true
+	}
 
 	stmt := strings.TrimLeftFunc(strings.TrimRightFunc(q.stmt, func(r rune) bool {
 		return unicode.IsSpace(r) || r == ';'
